@@ -25,16 +25,17 @@ VARIABLES
   pfd,        \* [peer -> [appId -> Seq([ok, ast])]]
   sess,       \* [UP SEID token -> session]  live sessions
   ipHeld,     \* [UP SEID token -> address]  UP-allocated UE addresses of live sessions
-  teidHeld,   \* [UP SEID token -> set of TEIDs the agent chose for it]
+  teidHeld,   \* [UP SEID token -> [PDR id -> TEID the agent chose for that PDR]]
   ended,      \* tokens of sessions that have ended in this incarnation
   stale,      \* named slack: datapath entries a listed known finding is allowed to leave behind
   relabel,    \* named slack: sessions that had an accepted modification creating or updating QERs (F-QER-RELABEL)
   used,       \* ids of the listed known findings whose slack was actually needed so far
   tables,     \* observed BESS tables after the last consumed line
   cmds,       \* observed length of the command stream after the last consumed line
+  snap,       \* guarded state snapshot taken with the last consumed line ([has |-> FALSE] if none)
   chk,        \* verdicts of the per-step checks of the last consumed line (record of booleans)
   last        \* summary of the last consumed line: [ev, kind, accepted, u]
-vars == <<l, alive, cfg, assoc, pfd, sess, ipHeld, teidHeld, ended, stale, relabel, used, tables, cmds, chk, last>>
+vars == <<l, alive, cfg, assoc, pfd, sess, ipHeld, teidHeld, ended, stale, relabel, used, tables, cmds, snap, chk, last>>
 
 Dev(name) == name \in KnownDevs
 
@@ -43,6 +44,8 @@ Dev(name) == name \in KnownDevs
 AsSet(s) == {s[i] : i \in 1..Len(s)}
 ToTables(dp) == [pdr |-> AsSet(dp.pdr), far |-> AsSet(dp.far), appQer |-> AsSet(dp.appQer), sessQer |-> AsSet(dp.sessQer)]
 EmptyTables == [pdr |-> {}, far |-> {}, appQer |-> {}, sessQer |-> {}]
+NoSnap == [has |-> FALSE]
+SnapOf(e) == IF "snap" \in DOMAIN e THEN e.snap ELSE NoSnap
 NoResp == [type |-> "none", seq |-> <<>>, hasSeid |-> FALSE, seid |-> "zero", cause |-> 0, node |-> "-",
            hasFseid |-> FALSE, fseid |-> "zero", fseidIp |-> Zero32, created |-> <<>>, hasTs |-> FALSE, ts |-> Zero32,
            features |-> <<>>, offend |-> 0]
@@ -111,7 +114,7 @@ UnknownSess(p, u) == u \notin DOMAIN sess \/ sess[u].peer # p
 Init ==
   /\ l = 1 /\ alive = FALSE /\ cfg = [dp |-> "none"] /\ assoc = EmptyFn /\ pfd = EmptyFn /\ sess = EmptyFn
   /\ ipHeld = EmptyFn /\ teidHeld = EmptyFn /\ ended = {} /\ stale = {} /\ relabel = {} /\ used = {}
-  /\ tables = EmptyTables /\ cmds = 0
+  /\ tables = EmptyTables /\ cmds = 0 /\ snap = NoSnap
   /\ chk = ChkOK /\ last = [ev |-> "init", kind |-> "-", accepted |-> FALSE, u |-> "-"]
   /\ InitHw /\ TLCSet(2, {})
 
@@ -124,7 +127,7 @@ StartEv ==
   /\ alive' = TRUE /\ cfg' = e.cfg
   /\ assoc' = EmptyFn /\ pfd' = EmptyFn /\ sess' = EmptyFn /\ ipHeld' = EmptyFn /\ teidHeld' = EmptyFn
   /\ ended' = {} /\ stale' = {} /\ relabel' = {}
-  /\ tables' = ToTables(e.dp) /\ cmds' = e.cmds
+  /\ tables' = ToTables(e.dp) /\ cmds' = e.cmds /\ snap' = SnapOf(e)
   /\ chk' = [ChkOK EXCEPT !.startEmpty = (ToTables(e.dp) = EmptyTables)]
   /\ last' = [ev |-> "start", kind |-> "-", accepted |-> FALSE, u |-> "-"]
   /\ Advance
@@ -135,10 +138,11 @@ KillEv ==
   /\ e.ev \in {"kill", "stopped"}
   /\ alive' = FALSE
   /\ UNCHANGED <<cfg, assoc, pfd, sess, ipHeld, teidHeld, ended, stale, relabel, tables, cmds>>
+  /\ snap' = NoSnap
   /\ chk' = ChkOK /\ last' = [ev |-> e.ev, kind |-> "-", accepted |-> FALSE, u |-> "-"]
   /\ Advance
 
-Obs(e) == tables' = ToTables(e.dp) /\ cmds' = e.cmds
+Obs(e) == tables' = ToTables(e.dp) /\ cmds' = e.cmds /\ snap' = SnapOf(e)
 
 HbEv ==
   LET e == Trace[l] IN
@@ -222,7 +226,7 @@ EstabEv ==
   /\ IF acc
      THEN /\ sess' = Override(sess, [x \in {u} |-> s1])
           /\ ipHeld' = IF WantsAlloc(req.cpdr) THEN Override(ipHeld, [x \in {u} |-> allocAddr]) ELSE ipHeld
-          /\ teidHeld' = Override(teidHeld, [x \in {u} |-> {teids[id] : id \in DOMAIN teids}])
+          /\ teidHeld' = Override(teidHeld, [x \in {u} |-> teids])
           /\ ended' = ended \ {u}      \* a UP SEID may be used again once its session has ended
      ELSE UNCHANGED <<sess, ipHeld, teidHeld, ended>>
   /\ UNCHANGED <<alive, cfg, assoc, pfd, stale, relabel>>
@@ -240,7 +244,7 @@ EstabEv ==
                !.mustReject = ~EstabMustReject(p, req),
                !.seidLegal = SeidLegal(sess, p, u),
                !.teidLegal =
-                  /\ \A id \in DOMAIN teids : teids[id] # Zero32 /\ \A v \in DOMAIN teidHeld : teids[id] \notin teidHeld[v]
+                  /\ \A id \in DOMAIN teids : teids[id] # Zero32 /\ \A v \in DOMAIN teidHeld : \A k \in DOMAIN teidHeld[v] : teids[id] # teidHeld[v][k]
                   /\ \A a, b \in DOMAIN teids : a # b => teids[a] # teids[b],
                !.ipLegal = (WantsAlloc(req.cpdr) => Usable(allocAddr, PoolOf) /\ \A v \in DOMAIN ipHeld : ipHeld[v] # allocAddr),
                !.envelope = ReqInEnvelope(s0, req)]
@@ -268,7 +272,9 @@ ModEv ==
   \* message (session_qer.go, "FIXME" in messages_session.go); the two can disagree whenever a modification
   \* creates or updates QERs
   /\ relabel' = IF acc /\ known /\ Len(req.cqer) + Len(req.uqer) > 0 THEN relabel \cup {u} ELSE relabel
-  /\ UNCHANGED <<alive, cfg, assoc, pfd, ipHeld, teidHeld, ended, stale>>
+  \* the TEID chosen for a PDR is released when the PDR is removed
+  /\ teidHeld' = IF acc /\ known /\ u \in DOMAIN teidHeld THEN [teidHeld EXCEPT ![u] = Without(@, SeqSet(req.rpdr))] ELSE teidHeld
+  /\ UNCHANGED <<alive, cfg, assoc, pfd, ipHeld, ended, stale>>
   /\ Obs(e)
   /\ chk' =
        IF acc
@@ -318,6 +324,27 @@ DelEv ==
   /\ last' = [ev |-> "req", kind |-> "del", accepted |-> acc /\ known, u |-> IF acc /\ known THEN u ELSE "-"]
   /\ Advance
 
+\* The datapath reported downlink data for session e.u; e.srr = the datagrams the peer received (Session Report
+\* Requests), e.cause = the cause the peer answered with (0 = no answer).  An answer "session context not found"
+\* ends the session (C05).
+CauseCtxNotFound == 65
+ReportEv ==
+  LET e == Trace[l]  u == e.u
+      ends == e.cause = CauseCtxNotFound /\ Len(e.srr) >= 1 /\ u \in DOMAIN sess
+  IN
+  /\ e.ev = "report"
+  /\ IF ends
+     THEN /\ sess' = Without(sess, {u}) /\ ipHeld' = Without(ipHeld, {u}) /\ teidHeld' = Without(teidHeld, {u})
+          /\ ended' = ended \cup {u}
+          /\ stale' = stale \cup RelabelResidue({u}, ToTables(e.dp))
+          /\ relabel' = relabel \ {u}
+     ELSE UNCHANGED <<sess, ipHeld, teidHeld, ended, stale, relabel>>
+  /\ UNCHANGED <<alive, cfg, assoc, pfd>>
+  /\ Obs(e)
+  /\ chk' = ChkOK
+  /\ last' = [ev |-> "report", kind |-> "-", accepted |-> ends, u |-> u]
+  /\ Advance
+
 \* a response-type message injected by the peer: never answered, changes nothing
 InjectRespEv ==
   LET e == Trace[l] IN
@@ -339,12 +366,12 @@ UsedNow ==
 \* last line of every trace: nothing happens (lets the bookkeeping of `used' see the final state)
 EndEv ==
   /\ Trace[l].ev = "end"
-  /\ UNCHANGED <<alive, cfg, assoc, pfd, sess, ipHeld, teidHeld, ended, stale, relabel, tables, cmds>>
+  /\ UNCHANGED <<alive, cfg, assoc, pfd, sess, ipHeld, teidHeld, ended, stale, relabel, tables, cmds, snap>>
   /\ chk' = ChkOK /\ last' = [ev |-> "end", kind |-> "-", accepted |-> FALSE, u |-> "-"]
   /\ Advance
 
 Next == /\ l <= Len(Trace)
-        /\ (EndEv \/ StartEv \/ KillEv \/ HbEv \/ AssocEv \/ ReleaseEv \/ LostEv \/ PfdEv \/ EstabEv \/ ModEv \/ DelEv \/ InjectRespEv)
+        /\ (EndEv \/ StartEv \/ KillEv \/ HbEv \/ AssocEv \/ ReleaseEv \/ LostEv \/ ReportEv \/ PfdEv \/ EstabEv \/ ModEv \/ DelEv \/ InjectRespEv)
         /\ used' = used \cup UsedNow      \* the state BEFORE this step (every trace ends with an "end" line)
         /\ TLCSet(2, used')
 Spec == Init /\ [][Next]_vars
@@ -372,7 +399,16 @@ C03_RejectedWritesNothing == chk.writesNothing
 C03_StartClearsLookupModules == chk.startEmpty
 
 \* C05 (BESS part): nothing of an ended session remains
-C05_NoDatapathResidue == (last.ev \in {"req", "lost"}) => \A u \in ended : \A x \in tables.pdr \cup tables.far \cup tables.appQer \cup tables.sessQer : x.fseid # u \/ x \in stale
+C05_NoDatapathResidue == (last.ev \in {"req", "lost", "report"}) => \A u \in ended : \A x \in tables.pdr \cup tables.far \cup tables.appQer \cup tables.sessQer : x.fseid # u \/ x \in stale
+
+C05_Applies == last.ev \in {"req", "lost", "report"}
+\* ... and everything allocated for it is returned (read from the guarded snapshot when the line carries one)
+SnapStore == UNION {AsSet(snap.store[i].seids) : i \in 1..Len(snap.store)}
+C05_SessionRecordsForgotten == (C05_Applies /\ snap.has) => SnapStore = DOMAIN sess
+C05_AddressesReturned == (C05_Applies /\ snap.has) => {snap.ipHeld[i].u : i \in 1..Len(snap.ipHeld)} = DOMAIN ipHeld
+TeidsHeldNow == UNION {{teidHeld[u][k] : k \in DOMAIN teidHeld[u]} : u \in DOMAIN teidHeld}
+C05_TeidsReturned == (C05_Applies /\ snap.has) => snap.teidCount = Cardinality(TeidsHeldNow)
+C05_GaugeCountsLiveSessions == (C05_Applies /\ snap.has) => snap.gauge = Cardinality(DOMAIN sess)
 
 \* C06 / C07 (end-to-end part)
 C06_AddressInPoolAndExclusive == chk.ipLegal
